@@ -81,6 +81,12 @@ def rewrites(toks):
             out += [t, toks[i + 3] + "="]
             i += 4
             continue
+        if (t == "map" and i + 5 < n and toks[i + 1] == "(" and toks[i + 3] == "::" and toks[i + 4] == "from" and toks[i + 5] == ")"
+                and toks[i + 2] in ("f64", "f32", "i64", "u64", "usize", "isize", "u32", "i32", "u16", "i16", "u128", "i128")):
+            # `.map(T::from)` = `.map(|n| n as T)`
+            out += ["map", "(", "|", "n", "|", "n", "as", toks[i + 2], ")"]
+            i += 6
+            continue
         if (t in ("f64", "f32", "i64", "u64", "usize", "isize", "u32", "i32", "u16", "i16", "u128", "i128") and i + 5 < n
                 and toks[i + 1] == "::" and toks[i + 2] == "from" and toks[i + 3] == "("
                 and re.fullmatch(r"[a-z_][A-Za-z0-9_]*", toks[i + 4]) and toks[i + 5] == ")"):
